@@ -20,7 +20,7 @@ META = {
     "outside": "structures outside the C03 bound; cuts inside the identity header (C04)",
     "assumptions": ["structure fields that still lie inside the truncated payload keep the values of the complete message"],
 }
-WALL_BUDGET = {"quick": 480, "thorough": 3000}
+WALL_BUDGET = {"quick": 900, "thorough": 3000}
 
 
 def jobs(tier, seed):
